@@ -546,7 +546,83 @@ func buildSMT(prelude, decls string, o *Obligation) string {
 		b.WriteString("(assert " + strings.TrimPrefix(h, contentTag) + ")\n")
 	}
 	b.WriteString("(assert (not " + o.Goal + "))\n(check-sat)\n")
-	return b.String()
+	return pruneDecls(b.String())
+}
+
+// pruneDecls drops constant and datatype declarations nothing refers to. They are harmless
+// logically, but a record type with float fields that the proof never touches pulls the
+// floating-point theory into the query and changes the solvers' quantifier strategy: the same
+// obligation was then proved for one corpus shape and "unknown" for another.
+func pruneDecls(smt string) string {
+	lines := strings.Split(smt, "\n")
+	isID := func(c byte) bool {
+		return c == '_' || c == '!' || c == '.' || c == '$' || (c >= '0' && c <= '9') || (c >= 'a' && c <= 'z') || (c >= 'A' && c <= 'Z')
+	}
+	tokens := func(l string, f func(t string)) {
+		i := 0
+		for i < len(l) {
+			if !isID(l[i]) {
+				i++
+				continue
+			}
+			j := i
+			for j < len(l) && isID(l[j]) {
+				j++
+			}
+			f(l[i:j])
+			i = j
+		}
+	}
+	count := map[string]int{}
+	for _, l := range lines {
+		tokens(l, func(t string) { count[t]++ })
+	}
+	dead := make([]bool, len(lines))
+	for pass := 0; pass < 6; pass++ {
+		changed := false
+		for i, l := range lines {
+			if dead[i] {
+				continue
+			}
+			drop := false
+			switch {
+			case strings.HasPrefix(l, "(declare-const "):
+				rest := l[len("(declare-const "):]
+				if sp := strings.IndexByte(rest, ' '); sp > 0 && count[rest[:sp]] == 1 {
+					drop = true
+				}
+			case strings.HasPrefix(l, "(declare-datatypes ((S_"):
+				// every name the declaration introduces occurs only in the declaration itself
+				own := map[string]int{}
+				tokens(l, func(t string) { own[t]++ })
+				drop = true
+				for t, n := range own {
+					if (strings.HasPrefix(t, "S_") || strings.HasPrefix(t, "mk_S_")) && count[t] != n {
+						// used elsewhere -- unless it is another sort this one merely mentions
+						if strings.HasPrefix(l, "(declare-datatypes (("+t+" ") || strings.HasPrefix(t, "mk_S_") || strings.Contains(l, "("+t+" ") {
+							drop = false
+							break
+						}
+					}
+				}
+			}
+			if drop {
+				dead[i] = true
+				changed = true
+				tokens(l, func(t string) { count[t]-- })
+			}
+		}
+		if !changed {
+			break
+		}
+	}
+	var out []string
+	for i, l := range lines {
+		if !dead[i] {
+			out = append(out, l)
+		}
+	}
+	return strings.Join(out, "\n")
 }
 
 // discharge runs all obligations in parallel.
